@@ -112,48 +112,65 @@ def pick_cfgs(rng: random.Random, n: int) -> List[Dict[str, Any]]:
 
 
 # ---- compositions of 2-6 unit-scaled ops / modules
-def composition(rng: random.Random) -> Tuple[Callable, List[torch.Tensor], str]:
+def composition(rng: random.Random) -> Tuple[Callable, torch.dtype, str]:
+    """Returns make(dtype) -> (f, tensors): the SAME composition (steps, weights, input drawn once in float64 and cast)
+    in any precision, so that eager float32 and eager float64 runs can calibrate how well-conditioned it is."""
     import unit_scaling as uu
     import unit_scaling.functional as U
 
-    dt = rng.choice([torch.float64, torch.float32])
-    torch.manual_seed(rng.randrange(1 << 20))
-    ws = [torch.randn(8, 8, dtype=dt, requires_grad=True) for _ in range(3)]
+    dt0 = rng.choice([torch.float64, torch.float32])
+    seed = rng.randrange(1 << 20)
     steps = [rng.choice(["gelu", "silu", "linear", "softmax", "ln", "rms", "res", "add", "dropout0", "glu", "attn", "module"]) for _ in range(rng.randint(2, 6))]
-    mods = [uu.Linear(8, 8, bias=True, dtype=dt), uu.MLP(8, 2).to(dt), uu.LayerNorm(8, elementwise_affine=True, dtype=dt)]
-
-    def f(x, w0, w1, w2):
-        h = x
-        for i, s in enumerate(steps):
-            if s == "gelu":
-                h = U.gelu(h, mult=1.5, constraint=None)
-            elif s == "silu":
-                h = U.silu(h)
-            elif s == "linear":
-                h = U.linear(h, w0, None, constraint="gmean")
-            elif s == "softmax":
-                h = U.softmax(h, dim=-1, mult=0.5, constraint="to_grad_input_scale")
-            elif s == "ln":
-                h = U.layer_norm(h, (8,), w1[0], None)
-            elif s == "rms":
-                h = U.rms_norm(h, (8,), w2[0])
-            elif s == "res":
-                h = U.residual_apply(lambda t: U.linear(t, w1, None), h, tau=0.3)
-            elif s == "add":
-                h = U.add(h, x, constraint=None)
-            elif s == "dropout0":
-                h = U.dropout(h, 0.0, True)
-            elif s == "glu":
-                h = U.silu_glu(h, x, mult=2.0)
-            elif s == "attn":
-                h = U.scaled_dot_product_attention(h, h, x, is_causal=True, mult=0.5)
-            else:
-                h = mods[i % 3](h)
-        return U.mse_loss(h, x) if rng_tail else h.sum()
-
     rng_tail = rng.random() < 0.5
-    x = torch.randn(2, 4, 8, dtype=dt, requires_grad=True)
-    return f, [x] + ws, f"steps={steps} dtype={dt} tail={'mse' if rng_tail else 'sum'}"
+
+    def make(dt: torch.dtype):
+        torch.manual_seed(seed)
+        ws = [torch.randn(8, 8, dtype=torch.float64).to(dt).requires_grad_() for _ in range(3)]
+        mods = [uu.Linear(8, 8, bias=True, dtype=torch.float64).to(dt), uu.MLP(8, 2).to(torch.float64).to(dt), uu.LayerNorm(8, elementwise_affine=True, dtype=torch.float64).to(dt)]
+        x = torch.randn(2, 4, 8, dtype=torch.float64).to(dt).requires_grad_()
+
+        def f(x, w0, w1, w2):
+            h = x
+            for i, s in enumerate(steps):
+                if s == "gelu":
+                    h = U.gelu(h, mult=1.5, constraint=None)
+                elif s == "silu":
+                    h = U.silu(h)
+                elif s == "linear":
+                    h = U.linear(h, w0, None, constraint="gmean")
+                elif s == "softmax":
+                    h = U.softmax(h, dim=-1, mult=0.5, constraint="to_grad_input_scale")
+                elif s == "ln":
+                    h = U.layer_norm(h, (8,), w1[0], None)
+                elif s == "rms":
+                    h = U.rms_norm(h, (8,), w2[0])
+                elif s == "res":
+                    h = U.residual_apply(lambda t: U.linear(t, w1, None), h, tau=0.3)
+                elif s == "add":
+                    h = U.add(h, x, constraint=None)
+                elif s == "dropout0":
+                    h = U.dropout(h, 0.0, True)
+                elif s == "glu":
+                    h = U.silu_glu(h, x, mult=2.0)
+                elif s == "attn":
+                    h = U.scaled_dot_product_attention(h, h, x, is_causal=True, mult=0.5)
+                else:
+                    h = mods[i % 3](h)
+            return U.mse_loss(h, x) if rng_tail else h.sum()
+
+        return f, [x] + ws
+
+    return make, dt0, f"steps={steps} dtype={dt0} tail={'mse' if rng_tail else 'sum'}"
+
+
+def rel_dist(a: Optional[torch.Tensor], b: Optional[torch.Tensor]) -> float:
+    if a is None or b is None:
+        return 0.0
+    a64, b64 = a.double(), b.double()
+    m = torch.isfinite(a64) & torch.isfinite(b64)
+    if not bool(m.any()):
+        return 0.0
+    return float((a64[m] - b64[m]).abs().max()) / max(float(b64[m].abs().max()), 1e-30)
 
 
 def run(rep: Report, tier: str) -> None:
@@ -208,10 +225,11 @@ def run(rep: Report, tier: str) -> None:
     validate(rep, events, cfg_of, "C20")
     # compositions and modules
     for i in range(10 if quick else 60):
-        f, tens, label = composition(rng)
+        make, dt0, label = composition(rng)
         rep.case(("composition", i))
 
-        def run_mode(mode):
+        def run_mode(mode, dt):
+            f, tens = make(dt)
             ts = [t.detach().clone().requires_grad_() for t in tens]
             torch._dynamo.reset()
             fn = f if mode == "eager" else torch.compile(f, backend=mode)
@@ -221,19 +239,28 @@ def run(rep: Report, tier: str) -> None:
             return y.detach(), gs
 
         try:
-            ye, ge = run_mode("eager")
+            ye, ge = run_mode("eager", dt0)
+            y32, g32 = run_mode("eager", torch.float32)
+            y64, g64 = run_mode("eager", torch.float64)
         except Exception as ex:
             continue
+        # "to float rounding": the admissible distance is conditioned on the composition -- amplification = how far eager
+        # float32 is from eager float64 on the same data, in units of float32 epsilon; a compiled run in dtype D may be
+        # 64 x amplification x eps(D) away from eager (never less than the flat tolerance used for single ops)
+        amp = max([rel_dist(y32, y64)] + [rel_dist(a, b) for a, b in zip(g32, g64)]) / 2.0 ** -23
+        base = 1e-11 if dt0 == torch.float64 else 5e-5
+        tol = max(base, 64.0 * amp * (2.0 ** -52 if dt0 == torch.float64 else 2.0 ** -23))
         for mode in modes:
             try:
-                yc, gc = run_mode(mode)
+                yc, gc = run_mode(mode, dt0)
             except Exception as ex:
                 rep.violation(f"composition {label} under {mode} raised {type(ex).__name__}: {str(ex)[:160]}", {"composition": label, "mode": mode}, key=f"composition_raised:{mode}")
                 continue
-            tol = 1e-11 if tens[0].dtype == torch.float64 else 5e-5
             bad = not close(yc, ye, tol) or any((a is None) != (b is None) or (a is not None and not close(a, b, tol)) for a, b in zip(gc, ge))
             if bad:
-                rep.violation(f"composition {label}: {mode} differs from eager beyond {tol:g}", {"composition": label, "mode": mode}, key=f"composition:{mode}:{tens[0].dtype}")
+                worst = max([rel_dist(yc, ye)] + [rel_dist(a, b) for a, b in zip(gc, ge)])
+                rep.violation(f"composition {label}: {mode} differs from eager by {worst:.3g} (relative to the largest element), beyond {tol:.3g} (float32-vs-float64 amplification of this composition: {amp:.3g})",
+                              {"composition": label, "mode": mode}, key=f"composition:{mode}:{dt0}")
     rep.extra["fx_symbolic_trace_not_applicable"] = skipped_fx
     rep.extra["events"] = len(events)
     rep.rule = "a slice of the C01/C02 configurations (every op, dtypes f64/f32/bf16) x modes {eager, aot_eager, (thorough) inductor, leaf tracer, fx forward} + compositions of 2-6 ops/modules; non-trivial = all"
